@@ -237,7 +237,9 @@ namespace Pistache::Http
         {
             int value = *maxAge;
             os << "; ";
-            os << "Max-Age=" << value;
+            // as text: a number inserted into the stream is formatted by the
+            // stream's locale ("86,400" where the locale groups digits)
+            os << "Max-Age=" << std::to_string(value);
         }
         if (expires.has_value())
         {
